@@ -8,7 +8,10 @@ use crate::util::*;
 use serde_json::json;
 use std::time::Duration;
 
-pub const EMPTY_QUERIES: [&str; 6] = ["", " ", "-", "\0", ", ", "'"];
+/// letter- and digit-free queries: empty, separators (space, hyphen, NUL, comma, control and Unicode line separators,
+/// Latin-1 punctuation) and symbols that are neither separators nor alphanumeric (quote, plus / hash, zero-width space,
+/// a free-standing combining mark)
+pub const EMPTY_QUERIES: [&str; 12] = ["", " ", "-", "\0", ", ", "'", "\t\n", "\u{2028}", "+#", "\u{2026} \u{a1}", "\u{200b}", "\u{301}"];
 
 pub fn menu4(l: L) -> Vec<(String, usize)> {
     let s = sym(l);
@@ -22,7 +25,7 @@ pub fn menu_case(l: L) -> Vec<(String, usize)> {
     vec![m[0].clone(), m[1].clone(), (m[4].0.clone(), 7), (m[8].0.clone(), 9)]
 }
 
-/// ratings far above 2^31 (still inside the signed range the scorer can represent)
+/// ratings far above 2^31 and below 2^63 (`menu_beyond` mixes ordinary ratings with the upper half of the range)
 pub fn menu_huge(l: L) -> Vec<(String, usize)> {
     let s = sym(l);
     vec![(s.c.to_string(), (1 << 31) + 1), (format!("{0}{0}", s.v), (1 << 31) + 2), (format!("{} {}", s.v, s.c), 1 << 40), (format!("{0}{1}{0} {1}", s.v, s.c), 1 << 62)]
@@ -303,12 +306,12 @@ impl Prop for C12 {
         }
     }
     fn rule(&self) -> String {
-        "sweep: every store (sequence, repeats allowed) over small (title, rating) menus with duplicate ratings and titles, and over a menu whose raw and normalised title orders disagree, x every limit 0..|store|+2 x six letter-free queries; reference = top-k over a plain list with the tie rule as a predicate on the public normalised titles. History part: BFS over {empty search x2, add x4, limit x4}, every search transition checked against the list model. Non-trivial = a non-empty list shorter than the store (a selection was made).".into()
+        "sweep: every store (sequence, repeats allowed) over small (title, rating) menus with duplicate ratings and titles, and over a menu whose raw and normalised title orders disagree, x every limit 0..|store|+2 x twelve letter-free queries (empty, separators of several kinds, symbols that are neither separators nor alphanumeric); reference = top-k over a plain list with the tie rule as a predicate on the public normalised titles. History part: BFS over {empty search x2, add x4, limit x4}, every search transition checked against the list model. Non-trivial = a non-empty list shorter than the store (a selection was made).".into()
     }
     fn assumptions(&self) -> Vec<String> {
         vec![
             "normalised titles are taken from the public tokeniser (tokenize_record(..).chars)".into(),
-            "stores of at most 6 records over the listed menus; histories to the listed depth".into(),
+            "stores of at most 6 records over the listed menus (ratings from 3 up to usize::MAX, on both sides of 2^31 and of 2^63); histories to the listed depth".into(),
             "a panic on an empty query is reported by this check: the statement says what is returned, and the list model always answers".into(),
         ]
     }
